@@ -49,6 +49,11 @@ class DaqFile(object):
     def path(self, ch):
         return qpath(ch['group'], ch['name'])
 
+    def pos(self, seg, ch, sc):
+        """Byte offset (or bit number for digital lines) of a scaler in the rows of its buffer, as declared for this segment:
+        a later segment that restates the raw data index may lay the row out differently."""
+        return (seg or {}).get('layout', {}).get((ch['name'], sc['id']), sc['bit'] if self.digital else sc['off'])
+
     # ------------------------------------------------------------------ encoding
     def _meta(self, e, kind, seg=None):
         if kind == 'drop':
@@ -75,9 +80,9 @@ class DaqFile(object):
                 out.append(struct.pack(e + 'IIQI', dt, 1, ch['n'], len(ch['scalers'])))
                 for s in ch['scalers']:
                     if self.digital:
-                        out.append(struct.pack(e + 'IIIBI', s['t'], s['buf'], s['bit'], 0, s['id']))
+                        out.append(struct.pack(e + 'IIIBI', s['t'], s['buf'], self.pos(seg, ch, s), 0, s['id']))
                     else:
-                        out.append(struct.pack(e + 'IIIII', s['t'], s['buf'], s['off'], 0, s['id']))
+                        out.append(struct.pack(e + 'IIIII', s['t'], s['buf'], self.pos(seg, ch, s), 0, s['id']))
                 out.append(struct.pack(e + 'I', len(self.widths)))
                 out.extend(struct.pack(e + 'I', w) for w in self.widths)
             pl = self.props.get(self.path(ch), []) if kind in ('full', 'explicit') else []
@@ -101,7 +106,7 @@ class DaqFile(object):
                     vals = seg['values'][(ch['name'], s['id'])][k]
                     dt, size, _ = DQ[s['t']]
                     if self.digital:
-                        byte, bit = s['bit'] // 8, s['bit'] % 8
+                        byte, bit = self.pos(seg, ch, s) // 8, self.pos(seg, ch, s) % 8
                         if e == '>':
                             byte += size - 1          # the low-order byte of a big-endian field is its last byte
                         for r in range(n):
@@ -110,7 +115,7 @@ class DaqFile(object):
                     else:
                         raw = np.asarray(vals, dtype=dt).astype(np.dtype(dt).newbyteorder(e)).tobytes()
                         for r in range(n):
-                            pos = r * w + s['off']
+                            pos = r * w + self.pos(seg, ch, s)
                             buf[pos:pos + size] = raw[r * size:(r + 1) * size]
             out += buf
         return bytes(out)
@@ -187,7 +192,7 @@ class DaqFile(object):
     def describe(self):
         return {'digital': self.digital, 'widths': self.widths, 'buflen': self.buflen,
                 'chans': [{'name': c['name'], 'raw': c['raw'], 'n': c['n'], 'scalers': c['scalers']} for c in self.chans],
-                'segs': [(s['endian'], s['nchunks'], s['meta'], sorted(s.get('inactive', ()))) for s in self.segs]}
+                'segs': [(s['endian'], s['nchunks'], s['meta'], sorted(s.get('inactive', ())), sorted(s.get('layout', {}).items())) for s in self.segs]}
 
     def signature(self):
         return (self.digital, tuple(self.widths), tuple(self.buflen),
@@ -196,7 +201,7 @@ class DaqFile(object):
 
 
 def gen_daqmx(rng, max_chans=5, max_bufs=3, max_segs=3, allow_be=True, multi_buffer_channels=True, chunks=(1, 1, 2, 3, 4),
-              lens=(1, 2, 3, 5), allow_drop=False):
+              lens=(1, 2, 3, 5), allow_drop=False, relayout=True):
     f = DaqFile()
     nbuf = rng.randint(1, max_bufs)
     nchan = rng.randint(1, max_chans)
@@ -266,4 +271,19 @@ def gen_daqmx(rng, max_chans=5, max_bufs=3, max_segs=3, allow_be=True, multi_buf
                         vs.append(np.frombuffer(rand_bytes(rng, ch['n'] * size), dtype=np.dtype(dt).newbyteorder('<')).astype(dt))
                 seg['values'][(ch['name'], s['id'])] = vs
         f.segs.append(seg)
+    # a later segment that restates the raw data index in full may move scalers within the row: same types, same widths,
+    # other byte offsets (here: two scalers of equal size in the same buffer exchange their places)
+    cur = {}
+    for si, seg in enumerate(f.segs):
+        if si > 0 and seg['meta'] == 'full':
+            cur = {}
+            if relayout and rng.random() < 0.5:
+                allsc = [(ch, sc) for ch in f.chans for sc in ch['scalers']]
+                pairs = [(a, b) for i_, a in enumerate(allsc) for b in allsc[i_ + 1:]
+                         if a[1]['buf'] == b[1]['buf'] and DQ[a[1]['t']][1] == DQ[b[1]['t']][1]]
+                if pairs:
+                    (cha, sa), (chb, sb) = rng.choice(pairs)
+                    key = 'bit' if f.digital else 'off'
+                    cur = {(cha['name'], sa['id']): sb[key], (chb['name'], sb['id']): sa[key]}
+        seg['layout'] = dict(cur)
     return f
